@@ -70,6 +70,8 @@ type Exec struct {
 	incomplete []string
 	cur        *State
 	lenient    bool
+	addrOf     map[Ptr]uint64
+	addrToPtr  map[uint64]Ptr
 }
 
 type KnownFinding struct {
@@ -279,6 +281,10 @@ func (ex *Exec) runPath(st *State) {
 		if st.steps > ex.cfg.MaxSteps {
 			panic(cutPath{"step cap"})
 		}
+		if st.stepLimit > 0 && st.steps > st.stepLimit {
+			ex.recordViolation(st, "nonterm", st.where(), st.stepMsg, nil)
+			panic(endPath{"step budget exceeded"})
+		}
 		ex.stepSafe(st)
 	}
 	ex.paths++
@@ -415,8 +421,21 @@ func (ex *Exec) step(st *State) {
 		f.pc++
 	case *ssa.DebugRef:
 		f.pc++
-	case *ssa.Send, *ssa.Select:
-		panic(cutPath{"channel operation"})
+	case *ssa.Select:
+		f.env[in] = ex.doSelect(st, f, in)
+		f.pc++
+	case *ssa.Send:
+		c, _ := ex.get(f, in.Chan).(ChanV)
+		if c.Obj == 0 {
+			panic(endPath{"send on nil channel blocks forever"})
+		}
+		o := st.wobj(c.Obj)
+		if o.ChanClosed {
+			ex.raise(st, &PanicInfo{Val: Iface{T: types.Typ[types.String], V: Str{S: "send on closed channel"}}, Site: ex.sitePos(st, in)})
+			return
+		}
+		o.ChanQueue = append(append([]Value(nil), o.ChanQueue...), ex.get(f, in.X))
+		f.pc++
 	case ssa.Value:
 		v := ex.evalValue(st, f, in)
 		f.env[in] = v
@@ -575,8 +594,8 @@ func (ex *Exec) call(st *State, fn FuncV, args []Value, retTo ssa.Value, instr s
 		f.pc++
 		return
 	}
-	if len(st.frames) > 400 {
-		panic(cutPath{"call depth > 400"})
+	if len(st.frames) > 12000 {
+		panic(cutPath{"call depth > 12000"})
 	}
 	f.pc++ // return address
 	ex.pushFrame(st, fn, args, retTo)
